@@ -8,6 +8,7 @@ CONSTANTS
   BatchSet = {2}
   PathSet = {"async"}
   MaxPauses = 0
+  MaxRestarts = 0
   Kinds = {"waive", "equal", "future", "neg"}
   Pols = {"leader"}
   Mut = "none"
